@@ -1,11 +1,12 @@
 CONSTANTS
   Peers = {1, 2, 3, 4, 5}
-  Hashes = {1, 2, 3}
+  Hashes = {1, 2, 3, 11}
   D = 2
   MaxPar = 3
   MaxPend = 20000
   Horizon = 14
   HeadCheck = TRUE
+  PlainBase = 10
   MaxHold = 2
   CritOn = FALSE
   ExportOn = TRUE
